@@ -188,8 +188,12 @@ func main() {
 	cfg := &lib.GenCfg{MaxDepth: 4, MaxWidth: 4, Links: true, UintBeyond: true, BadUTF8: true, NaNInf: true}
 	budgets := []int64{0, 0, 0, 1, 5, 20, 60, 200, -3}
 	depths := []int64{0, 0, 0, 1, 2, 3}
+	wides := []int{13, 25, 257, 1023, 1024, 1025, 1100}
 	for i := 0; i < n; i++ {
 		v := rng.GenVal(cfg, 0)
+		if i < 2*len(wides) { // wide containers first: per-position bookkeeping (depth, budget, seen keys)
+			v = rng.GenWide(cfg, i%2, wides[i/2])
+		}
 		if v.Kind < lib.KList && i%3 != 0 {
 			v = lib.List(v, rng.GenVal(cfg, 1))
 		}
